@@ -1438,6 +1438,10 @@ class CircuitTemplate(AbstractBaseTemplate):
         inp = np.asarray(inp)
         if inp.ndim > 1 and inp.shape[-1] == 1:
             inp = inp.squeeze(-1)
+        if inp.ndim > 0 and inp.shape[0] == 1:
+            # a series with a single sample (one integration step) would be stored as a scalar and could not be
+            # indexed by the step counter: repeat the sample so that the time axis survives
+            inp = np.concatenate([inp, inp], axis=0)
 
         # extract target nodes from network
         *node_id, op, var = target.split('/')
